@@ -63,7 +63,115 @@ func (h *StreamHandler) validateCommon(meta *TransferMetadata) error {
 	if err := h.authenticate(meta.Password); err != nil {
 		return err
 	}
-	return h.validatePath(meta.Path)
+	cleanPath, err := h.validateAccessPath(meta.Path, true)
+	if err != nil {
+		return err
+	}
+	// Every later filesystem operation must use exactly the path that was validated
+	// (normalizePath output), not a different spelling of it.
+	meta.Path = cleanPath
+	return nil
+}
+
+// validateAccessPath validates a requested path in two steps: the lexical allow-list
+// check (validatePath), and then the same check against the real location the path
+// refers to once symbolic links are resolved. Symbolic links are resolved in the
+// deepest existing ancestor, so paths that are about to be created are covered too.
+// followFinal must be false for operations that act on the directory entry itself
+// (delete, lstat) rather than on what a final symbolic link points to.
+// It returns the normalized path that must be used for the filesystem operation.
+func (h *StreamHandler) validateAccessPath(path string, followFinal bool) (string, error) {
+	if err := h.validatePath(path); err != nil {
+		return "", err
+	}
+	cleanPath := normalizePath(path)
+
+	realPath, err := resolveRealPath(cleanPath, followFinal)
+	if err != nil {
+		return "", fmt.Errorf("cannot resolve path: %w", err)
+	}
+	if realPath != cleanPath {
+		if err := h.validateRealPath(realPath); err != nil {
+			return "", fmt.Errorf("symlink target not allowed: path resolves outside allowed paths: %w", err)
+		}
+	}
+	return cleanPath, nil
+}
+
+// resolveRealPath resolves symbolic links in the deepest existing ancestor of path and
+// re-appends the components that do not exist yet. With followFinal=false the final
+// component is kept as is and only its parent directory is resolved.
+func resolveRealPath(path string, followFinal bool) (string, error) {
+	if !followFinal {
+		dir := filepath.Dir(path)
+		if dir == path {
+			return path, nil
+		}
+		realDir, err := resolveRealPath(dir, true)
+		if err != nil {
+			return "", err
+		}
+		return filepath.Join(realDir, filepath.Base(path)), nil
+	}
+
+	existing := path
+	var missing []string
+	for {
+		if _, err := os.Lstat(existing); err == nil {
+			break
+		}
+		parent := filepath.Dir(existing)
+		if parent == existing {
+			break
+		}
+		missing = append([]string{filepath.Base(existing)}, missing...)
+		existing = parent
+	}
+
+	realPath, err := filepath.EvalSymlinks(existing)
+	if err != nil {
+		return "", err
+	}
+	return filepath.Join(append([]string{realPath}, missing...)...), nil
+}
+
+// validateRealPath checks a symlink-resolved location against the allowed paths.
+// Allowed patterns are tried as configured and with symbolic links in their base
+// directory resolved, so an allowed directory that is itself reached through a
+// symbolic link (e.g. /tmp -> /private/tmp) keeps working.
+func (h *StreamHandler) validateRealPath(realPath string) error {
+	// The allow-list comparison normalizes to NFC; a resolved location that is not
+	// NFC-normalized is a different file system name than the one being compared.
+	if norm.NFC.String(realPath) != realPath {
+		return fmt.Errorf("resolved path is not NFC-normalized: %s", realPath)
+	}
+	for _, pattern := range h.cfg.AllowedPaths {
+		if pattern == "*" {
+			return nil
+		}
+		if isPathAllowed(realPath, pattern) {
+			return nil
+		}
+		if resolved, ok := resolvePatternBase(pattern); ok && isPathAllowed(realPath, resolved) {
+			return nil
+		}
+	}
+	return fmt.Errorf("path not in allowed list: %s", realPath)
+}
+
+// resolvePatternBase returns the pattern with symbolic links resolved in its
+// non-glob base directory, if that differs from the pattern as configured.
+func resolvePatternBase(pattern string) (string, bool) {
+	clean := normalizePath(pattern)
+	base := patternBaseDir(pattern)
+	if base == "" || base == string(filepath.Separator) {
+		return "", false
+	}
+	realBase, err := filepath.EvalSymlinks(base)
+	if err != nil || realBase == base {
+		return "", false
+	}
+	return realBase + strings.TrimPrefix(clean, base), true
 }
 
 // ValidateUploadMetadata validates upload metadata and returns an error if invalid.
